@@ -91,6 +91,9 @@ def check(rep, an, tier):
         F.must_constraint(rep, res, entry, "ub", "upper bound", xprobs)
         for k, pp in enumerate(pprobs):
             F.flow_constraints(rep, res, entry, {"lbp", "ubp"}, [pp], what=f"P constraints (P problem {k + 1})")
+        # the opacity bounds are enforced on every path (a `pos=True` attribute only gives P ≥ 0, not P ≥ lbp)
+        F.must_constraint(rep, res, entry, "lbp", "lower opacity bound", pprobs)
+        F.must_constraint(rep, res, entry, "ubp", "upper opacity bound", pprobs)
         # equal-L1 equality: present iff requested; its guards must not depend on the mask
         eq = [ev for ev in res.events("cvx_constraint") if "diff" in R.atoms_in(ev.d["val"]) and ev.d["val"].tag("op") == "Eq"]
         if cfg["equal"]:
